@@ -61,6 +61,13 @@ def run(ctx, col, tier):
 
 def dispatch(ctx, col):
     repo = ctx.repo
+    col.rule("R-MEMO", "nothing computed from the tree is kept on the tree / node / path / branch object: outside construction and setters no "
+             "method of these classes stores to self -- copies are deep and topology and coordinates are then edited in place (re-rooting, "
+             "concatenation, node setters, transforms), so a kept decomposition or measure describes the tree before the edit; zero expected, "
+             "positive examples are those of the transform-state lint", floor=1)
+    from ..rules import stateless as _stateless
+    _stateless.check_memo(ctx, col, "R-MEMO", ("swcgeom.core.tree", "swcgeom.core.path", "swcgeom.core.node", "swcgeom.core.branch",
+                                               "swcgeom.core.compartment", "swcgeom.core.branch_tree", "swcgeom.core.swc", "swcgeom.core.segment"))
     R_ = "R-DISPATCH"
     m = repo.get_module(FX)
     names = None
@@ -378,6 +385,9 @@ def definitions(ctx, col):
     grp("swcgeom.core.path.Path.tortuosity", [
         ("a zero-LENGTH path has tortuosity 1 (the guard is on the path length, the divisor)", ["if (length := self.length()) == 0: return 1"], "tort-guard"),
         ("tortuosity = straight-line distance / path length", ["return self.straight_line_distance() / length"], "tort")])
+    from ..rules import divguard
+    divguard.check(col, R_, repo.get_def("swcgeom.core.path.Path.tortuosity"),
+                   "tortuosity: the zero guard is on the path length, the divisor (a path of zero length has tortuosity 1)")
     grp(f"{A}.features.NodeFeatures.get_radial_distance", [
         ("radial distance: node position minus soma position ...", ["xyz = self.tree.xyz() - self.tree.soma().xyz()"], "radial-v"),
         ("... its norm, per node", ["radial_distance = np.linalg.norm(xyz, axis=1)", "return np.linalg.norm(xyz, axis=1)"], "radial")])
